@@ -1,5 +1,6 @@
 import SpecVerif.Proofs.Lemmas.LeastSquares
 import SpecVerif.Proofs.Lemmas.Marple
+import SpecVerif.Proofs.Lemmas.GaussJordan
 import SpecVerif.Proofs.C09
 import Mathlib.Tactic.IntervalCases
 import Mathlib.Tactic.FinCases
@@ -12,10 +13,23 @@ import Mathlib.Tactic.NormNum
   `Proofs/Lemmas/LeastSquares.lean`, namespace `SpecVerif.LSL`).
 
   The least-squares solver (`scipy.linalg.lstsq`) is a PARAMETER of the model with contract "returns a
-  minimiser".  The theorems are therefore stated for ANY coefficient vector `a` that satisfies the
+  minimiser".  Sections 1–5 are therefore stated for ANY coefficient vector `a` that satisfies the
   normal equations of the data matrix (`NormalEq`: the residual is orthogonal to every regressor
   column); `lsFit_returns` / `lsFit_normalEq_of_solver` say what `lsFit` returns in terms of its `lstsq`
-  call.  The Gauss–Jordan elimination of the exact instance is not verified here.
+  call.
+
+  Section 6 (end of the file) VERIFIES the exact instance of that parameter carried by the model, the
+  Gauss–Jordan elimination of `Model/LinAlg.lean` (helpers: `Proofs/Lemmas/GaussJordan.lean`, namespace
+  `SpecVerif.GJL`), for every field whose pivot test is lawful (`LawfulIsZero`: `isZero x = true ↔ x = 0`):
+  `gjStep_sound` (one step is an invertible row transformation that creates the unit column),
+  `solveMat_solves`, `solveVec_solves`, `inverse_right`, `lstsq_normal_equations` (soundness),
+  `solveMat_succeeds_iff` (the elimination fails exactly on singular matrices).  With it the contract
+  hypothesis of the theorems above is DISCHARGED: `lsFit_normalEq`, `lsFit_succeeds_iff`, `lsFit_unique`,
+  `arcovar_normalEq` / `modcovar_normalEq` (any field with involution), `arcovar_least_squares` /
+  `modcovar_least_squares` and the Marple stand-ins `arcovarMarple_least_squares` /
+  `modcovarMarple_least_squares` (`ℝ`/`ℂ`): whatever `arcovar x p` returns satisfies the normal equations,
+  `e` is the prediction-error energy at the returned coefficients, no coefficient vector has a smaller
+  one, and every minimiser agrees with the returned coefficients.
 -/
 namespace SpecVerif.C14
 open Finset SpecVerif SpecVerif.LSL
@@ -945,5 +959,272 @@ example :
     arcovarMarple ([⟨5, 0⟩, ⟨1, 0⟩, ⟨2, 0⟩, ⟨4, 0⟩, ⟨8, 0⟩, ⟨16, 0⟩] : List CRat) 2
       = some ([⟨-2, 0⟩, ⟨0, 0⟩], ⟨0, 0⟩) := by
   decide +kernel
+
+/-! ### 6. the model's linear solver is verified: the solver contract discharged
+
+`LawfulIsZero K` : the pivot test of the model decides `x = 0` (true for the exact instance `CRat`,
+whose test is `re == 0 && im == 0`; stated here for any field with a lawful test). -/
+section Solver
+open SpecVerif.GJL
+variable {K : Type} [Field K] [IsZero K] [LawfulIsZero K]
+
+/-- **one Gauss–Jordan step is sound** (`n × w` matrix, `col < n ≤ w`): if `gjStep` returns `M'` then
+(a) `M'` has the same null space as `M` — `M'` is `M` times an invertible matrix from the left —,
+(b) column `col` of `M'` is the unit vector `e_col`, and (c) if the columns `< col` of `M` were the unit
+columns `e_0 … e_{col-1}` they still are in `M'`. -/
+theorem gjStep_sound (n w col : ℕ) (M M' : Mat K) (hcn : col < n) (hnw : n ≤ w)
+    (h : gjStep n w M col = some M') :
+    (∀ v : ℕ → K, (∀ i, i < n → ∑ j ∈ range w, mentryM M' i j * v j = 0)
+        ↔ (∀ i, i < n → ∑ j ∈ range w, mentryM M i j * v j = 0)) ∧
+    (∀ i, i < n → mentryM M' i col = if i = col then 1 else 0) ∧
+    ((∀ i, i < n → ∀ j, j < col → mentryM M i j = if i = j then 1 else 0) →
+      ∀ i, i < n → ∀ j, j < col → mentryM M' i j = if i = j then 1 else 0) := by
+  obtain ⟨p, hcp, hpn, hpz, hE⟩ := gjStep_some h
+  have hpiv : mentryM M p col ≠ 0 := (isZero_false_iff _).mp hpz
+  refine ⟨fun v => nullVec_step hcn hpn hpiv hE v, pivotCol_step (by omega) hpiv hE, ?_⟩
+  intro hU i hi j hj
+  exact unitCols_step (by omega) hcp hpn hpiv hE hU i hi j (by omega)
+
+/-- **a step fails only on a column that vanishes at and below the diagonal** -/
+theorem gjStep_fails (n w col : ℕ) (M : Mat K) (h : gjStep n w M col = none) :
+    ∀ i, col ≤ i → i < n → mentryM M i col = 0 :=
+  fun i hci hin => (LawfulIsZero.isZero_iff _).mp (gjStep_none h i hci hin)
+
+/-- **`solveMat` is sound**: a returned `X` satisfies `A X = B` (`A` is `n × n`, `B` and `X` are `n × m`) -/
+theorem solveMat_solves (A B : Mat K) (n m : ℕ) (X : Mat K) (h : solveMat A B n m = some X) :
+    ∀ i, i < n → ∀ j, j < m → ∑ k ∈ range n, mentryM A i k * mentryM X k j = mentryM B i j :=
+  solveMat_sound h
+
+/-- **`solveMat` succeeds exactly on nonsingular matrices**: it returns a solution iff `A v = 0` only
+for `v = 0` (whatever the right-hand side `B`) -/
+theorem solveMat_succeeds_iff (A B : Mat K) (n m : ℕ) :
+    (∃ X, solveMat A B n m = some X) ↔
+      ∀ v : ℕ → K, (∀ i, i < n → ∑ k ∈ range n, mentryM A i k * v k = 0) → ∀ k, k < n → v k = 0 :=
+  ⟨fun ⟨_, h⟩ v hv => solveMat_kernel_trivial h v hv, solveMat_complete A B n m⟩
+
+/-- **`solveVec` is sound**: `A v = b` -/
+theorem solveVec_solves (A : Mat K) (b : List K) (n : ℕ) (v : List K) (h : solveVec A b n = some v) :
+    v.length = n ∧ ∀ i, i < n → ∑ k ∈ range n, mentryM A i k * nth v k = nth b i := by
+  refine ⟨?_, solveVec_sound h⟩
+  unfold solveVec at h
+  simp only [Option.map_eq_some_iff] at h
+  obtain ⟨X, _, rfl⟩ := h
+  exact vec_length _ _
+
+/-- **`inverse` is sound**: `A · inverse A = I` -/
+theorem inverse_right (A : Mat K) (n : ℕ) (Ai : Mat K) (h : inverse A n = some Ai) :
+    ∀ i, i < n → ∀ j, j < n →
+      ∑ k ∈ range n, mentryM A i k * mentryM Ai k j = if i = j then 1 else 0 :=
+  inverse_sound h
+
+variable [StarRing K]
+
+/-- **`lstsq` solves the normal equations** `XᴴX a = Xᴴ b` of the `r × c` problem `min ‖b - X a‖²` -/
+theorem lstsq_normal_equations (X : Mat K) (b : List K) (r c : ℕ) (a : List K)
+    (h : lstsq X b r c = some a) :
+    ∀ k, k < c →
+      ∑ l ∈ range c, (∑ i ∈ range r, star (mentryM X i k) * mentryM X i l) * nth a l
+        = ∑ i ∈ range r, star (mentryM X i k) * nth b i :=
+  lstsq_sound h
+
+/-- **`lsFit` without solver hypothesis**: whatever it returns satisfies the normal equations of
+`[X_1 | X_c]`, and `e` is the residual energy there. -/
+theorem lsFit_normalEq (X : Mat K) (rows p : ℕ) (a : List K) (e : K)
+    (h : lsFit X rows p = some (a, e)) :
+    NormalEq (col0 X) (colR X) rows p (nth a) ∧ e = lsEnergy (col0 X) (colR X) rows p (nth a) :=
+  lsFit_sound h
+
+/-- **`lsFit` succeeds exactly when the Gram matrix `X_cᴴX_c` is nonsingular** (the condition `GramInj`
+of C04, section 8; over `ℝ`/`ℂ`: full column rank of `X_c`) -/
+theorem lsFit_succeeds_iff (X : Mat K) (rows p : ℕ) :
+    (∃ a e, lsFit X rows p = some (a, e)) ↔
+      ∀ d : ℕ → K,
+        (∀ b, b < p → ∑ i ∈ range rows, star (colR X i b) * ∑ j ∈ range p, colR X i j * d j = 0) →
+          ∀ j, j < p → d j = 0 :=
+  lsFit_some_iff X rows p
+
+/-- **the returned coefficients are the only solution of the normal equations**, and there are `p` of
+them -/
+theorem lsFit_unique (X : Mat K) (rows p : ℕ) (a : List K) (e : K)
+    (h : lsFit X rows p = some (a, e)) :
+    a.length = p ∧
+    ∀ a' : ℕ → K, NormalEq (col0 X) (colR X) rows p a' → ∀ j, j < p → a' j = nth a j :=
+  ⟨lsFit_length' h, lsFit_solution_unique h⟩
+
+/-- **covariance method, any field with involution, no solver hypothesis**: if `arcovar x p` returns
+`(a, e)` then the forward prediction error at `a` is orthogonal to every regressor (normal equations),
+`e` is the forward prediction-error energy at `a`, the energy at any `a'` exceeds it by
+`Σ_t |Σ_j (a'_j - a_j) x[t-1-j]|²`, and `a` is the only solution of the normal equations. -/
+theorem arcovar_normalEq (x : List K) (p : ℕ) (a : List K) (e : K)
+    (h : arcovar x p = some (a, e)) :
+    (∀ b, b < p → ∑ t ∈ Ico p x.length, star (nth x (t - 1 - b)) * fwdErr x p (nth a) t = 0) ∧
+    e = fwdEnergy x p (nth a) ∧
+    (∀ a' : ℕ → K, fwdEnergy x p a' = e + ∑ i ∈ range (x.length - p),
+      lsDiff (colR (corrmtx x p .covariance)) p (nth a) a' i
+        * star (lsDiff (colR (corrmtx x p .covariance)) p (nth a) a' i)) ∧
+    (∀ a' : ℕ → K,
+      (∀ b, b < p → ∑ t ∈ Ico p x.length, star (nth x (t - 1 - b)) * fwdErr x p a' t = 0) →
+        ∀ j, j < p → a' j = nth a j) := by
+  have hn := (lsFit_sound h).1
+  obtain ⟨he, hpy⟩ := arcovar_error x p a e h hn
+  refine ⟨(covariance_normalEq_iff x p (nth a)).mp hn, he, hpy, fun a' ha' => ?_⟩
+  exact lsFit_solution_unique h a' ((covariance_normalEq_iff x p a').mpr ha')
+
+/-- **modified covariance method, any field with involution, no solver hypothesis** -/
+theorem modcovar_normalEq (x : List K) (p : ℕ) (a : List K) (e : K)
+    (h : modcovar x p = some (a, e)) :
+    (∀ b, b < p → ∑ t ∈ Ico p x.length, star (nth x (t - 1 - b)) * fwdErr x p (nth a) t
+          + ∑ s ∈ range (x.length - p), nth x (s + 1 + b) * star (bwdErr x p (nth a) s) = 0) ∧
+    e = fwdEnergy x p (nth a) + bwdEnergy x p (nth a) ∧
+    (∀ a' : ℕ → K, fwdEnergy x p a' + bwdEnergy x p a' = e + ∑ i ∈ range (2 * (x.length - p)),
+      lsDiff (colR (corrmtx x p .modified)) p (nth a) a' i
+        * star (lsDiff (colR (corrmtx x p .modified)) p (nth a) a' i)) ∧
+    (∀ a' : ℕ → K,
+      (∀ b, b < p → ∑ t ∈ Ico p x.length, star (nth x (t - 1 - b)) * fwdErr x p a' t
+          + ∑ s ∈ range (x.length - p), nth x (s + 1 + b) * star (bwdErr x p a' s) = 0) →
+        ∀ j, j < p → a' j = nth a j) := by
+  have hn := (lsFit_sound h).1
+  obtain ⟨he, hpy⟩ := modcovar_error x p a e h hn
+  refine ⟨(modified_normalEq_iff x p (nth a)).mp hn, he, hpy, fun a' ha' => ?_⟩
+  exact lsFit_solution_unique h a' ((modified_normalEq_iff x p a').mpr ha')
+
+/-- **`arcovar` / `modcovar` succeed exactly when the Gram matrix of the regressor block of their data
+matrix is nonsingular** -/
+theorem covar_succeeds_iff (x : List K) (p : ℕ) :
+    ((∃ a e, arcovar x p = some (a, e)) ↔
+      ∀ d : ℕ → K,
+        (∀ b, b < p → ∑ i ∈ range (x.length - p), star (colR (corrmtx x p .covariance) i b)
+            * ∑ j ∈ range p, colR (corrmtx x p .covariance) i j * d j = 0) →
+          ∀ j, j < p → d j = 0) ∧
+    ((∃ a e, modcovar x p = some (a, e)) ↔
+      ∀ d : ℕ → K,
+        (∀ b, b < p → ∑ i ∈ range (2 * (x.length - p)), star (colR (corrmtx x p .modified) i b)
+            * ∑ j ∈ range p, colR (corrmtx x p .modified) i j * d j = 0) →
+          ∀ j, j < p → d j = 0) :=
+  ⟨lsFit_some_iff _ _ p, lsFit_some_iff _ _ p⟩
+
+end Solver
+
+section SolverRC
+open SpecVerif.GJL
+variable {𝕜 : Type} [RCLike 𝕜] [IsZero 𝕜] [LawfulIsZero 𝕜]
+
+/-- **C14, covariance method, unconditional** (`ℝ`/`ℂ`, lawful pivot test): if `arcovar x p` returns
+`(a, e)` then the normal equations hold, `e` is the forward prediction-error energy
+`Σ_{t=p}^{N-1} |x[t] + Σ_j a_j x[t-1-j]|²`, no coefficient vector has a smaller one, and every
+coefficient vector with the same energy coincides with `a` (on `j < p`). -/
+theorem arcovar_least_squares (x : List 𝕜) (p : ℕ) (a : List 𝕜) (e : 𝕜)
+    (h : arcovar x p = some (a, e)) :
+    (∀ b, b < p → ∑ t ∈ Ico p x.length, star (nth x (t - 1 - b)) * fwdErr x p (nth a) t = 0) ∧
+    e = ((∑ t ∈ Ico p x.length, ‖fwdErr x p (nth a) t‖ ^ 2 : ℝ) : 𝕜) ∧
+    (∀ a' : ℕ → 𝕜, ∑ t ∈ Ico p x.length, ‖fwdErr x p (nth a) t‖ ^ 2
+      ≤ ∑ t ∈ Ico p x.length, ‖fwdErr x p a' t‖ ^ 2) ∧
+    (∀ a' : ℕ → 𝕜, (∀ a'' : ℕ → 𝕜, ∑ t ∈ Ico p x.length, ‖fwdErr x p a' t‖ ^ 2
+        ≤ ∑ t ∈ Ico p x.length, ‖fwdErr x p a'' t‖ ^ 2) → ∀ j, j < p → a' j = nth a j) := by
+  obtain ⟨hne, _, _, huniq⟩ := arcovar_normalEq x p a e h
+  obtain ⟨he, hmin⟩ := arcovar_optimal x p a e h hne
+  refine ⟨hne, he, hmin, fun a' hmin' => huniq a' ?_⟩
+  rw [← covariance_normalEq_iff]
+  apply normalEq_of_minimiser
+  intro a''
+  rw [(covariance_energy_real x p a').1, (covariance_energy_real x p a'').1]
+  exact hmin' a''
+
+/-- **C14, modified covariance method, unconditional** (`ℝ`/`ℂ`, lawful pivot test) -/
+theorem modcovar_least_squares (x : List 𝕜) (p : ℕ) (a : List 𝕜) (e : 𝕜)
+    (h : modcovar x p = some (a, e)) :
+    (∀ b, b < p → ∑ t ∈ Ico p x.length, star (nth x (t - 1 - b)) * fwdErr x p (nth a) t
+          + ∑ s ∈ range (x.length - p), nth x (s + 1 + b) * star (bwdErr x p (nth a) s) = 0) ∧
+    e = ((∑ t ∈ Ico p x.length, ‖fwdErr x p (nth a) t‖ ^ 2
+          + ∑ s ∈ range (x.length - p), ‖bwdErr x p (nth a) s‖ ^ 2 : ℝ) : 𝕜) ∧
+    (∀ a' : ℕ → 𝕜, ∑ t ∈ Ico p x.length, ‖fwdErr x p (nth a) t‖ ^ 2
+          + ∑ s ∈ range (x.length - p), ‖bwdErr x p (nth a) s‖ ^ 2
+      ≤ ∑ t ∈ Ico p x.length, ‖fwdErr x p a' t‖ ^ 2
+          + ∑ s ∈ range (x.length - p), ‖bwdErr x p a' s‖ ^ 2) ∧
+    (∀ a' : ℕ → 𝕜, (∀ a'' : ℕ → 𝕜, ∑ t ∈ Ico p x.length, ‖fwdErr x p a' t‖ ^ 2
+          + ∑ s ∈ range (x.length - p), ‖bwdErr x p a' s‖ ^ 2
+        ≤ ∑ t ∈ Ico p x.length, ‖fwdErr x p a'' t‖ ^ 2
+          + ∑ s ∈ range (x.length - p), ‖bwdErr x p a'' s‖ ^ 2) → ∀ j, j < p → a' j = nth a j) := by
+  obtain ⟨hne, _, _, huniq⟩ := modcovar_normalEq x p a e h
+  obtain ⟨he, hmin⟩ := modcovar_optimal x p a e h hne
+  refine ⟨hne, he, hmin, fun a' hmin' => huniq a' ?_⟩
+  rw [← modified_normalEq_iff]
+  apply normalEq_of_minimiser
+  intro a''
+  rw [(covariance_energy_real x p a').2, (covariance_energy_real x p a'').2]
+  exact hmin' a''
+
+/-- **Marple covariance stand-in, unconditional**: the coefficients of `arcovar`, and for `p < N` the
+minimum forward energy per prediction equation `E_min/(N-p)` -/
+theorem arcovarMarple_least_squares (x : List 𝕜) (p : ℕ) (hp : p < x.length) (a : List 𝕜) (e' : 𝕜)
+    (h : arcovarMarple x p = some (a, e')) :
+    (∃ e, arcovar x p = some (a, e)) ∧
+    e' = (((∑ t ∈ Ico p x.length, ‖fwdErr x p (nth a) t‖ ^ 2) / ((x.length - p : ℕ) : ℝ) : ℝ) : 𝕜) ∧
+    ∀ a' : ℕ → 𝕜, ∑ t ∈ Ico p x.length, ‖fwdErr x p (nth a) t‖ ^ 2
+      ≤ ∑ t ∈ Ico p x.length, ‖fwdErr x p a' t‖ ^ 2 := by
+  obtain ⟨e, h1, _⟩ := (arcovarMarple_iff x p a e').mp h
+  obtain ⟨h2, _, h3, h4⟩ := arcovarMarple_optimal x p hp a e' h (arcovar_least_squares x p a e h1).1
+  exact ⟨h2, h3, h4⟩
+
+/-- **Marple modified covariance stand-in, unconditional**: the coefficients of `modcovar`, and the
+minimum forward + backward energy per equation `E_min/(2(N-p))` -/
+theorem modcovarMarple_least_squares (x : List 𝕜) (p : ℕ) (hp : p < x.length) (a : List 𝕜) (e' : 𝕜)
+    (h : modcovarMarple x p = some (a, e')) :
+    (∃ e, modcovar x p = some (a, e)) ∧
+    e' = (((∑ t ∈ Ico p x.length, ‖fwdErr x p (nth a) t‖ ^ 2
+          + ∑ s ∈ range (x.length - p), ‖bwdErr x p (nth a) s‖ ^ 2)
+            / ((2 * (x.length - p) : ℕ) : ℝ) : ℝ) : 𝕜) ∧
+    ∀ a' : ℕ → 𝕜, ∑ t ∈ Ico p x.length, ‖fwdErr x p (nth a) t‖ ^ 2
+          + ∑ s ∈ range (x.length - p), ‖bwdErr x p (nth a) s‖ ^ 2
+      ≤ ∑ t ∈ Ico p x.length, ‖fwdErr x p a' t‖ ^ 2
+          + ∑ s ∈ range (x.length - p), ‖bwdErr x p a' s‖ ^ 2 := by
+  obtain ⟨e, h1, _⟩ := (modcovarMarple_iff x p a e').mp h
+  obtain ⟨h2, _, h3, h4⟩ :=
+    modcovarMarple_optimal x p hp a e' h (modcovar_least_squares x p a e h1).1
+  exact ⟨h2, h3, h4⟩
+
+end SolverRC
+
+section SolverExamples
+open SpecVerif.GJL
+
+/-- exact zero tests on `ℚ` and `ℝ` for the examples, and their lawfulness (the hypothesis
+`LawfulIsZero` of section 6 is satisfiable) -/
+local instance : IsZero ℚ := ⟨fun q => decide (q = 0)⟩
+local instance : LawfulIsZero ℚ := lawful_decide
+noncomputable local instance : IsZero ℝ := ⟨fun q => decide (q = 0)⟩
+local instance : LawfulIsZero ℝ := lawful_decide
+
+/-- hypotheses of `gjStep_sound` / `solveVec_solves` / `solveMat_succeeds_iff` / `inverse_right`: a
+`2 × 2` system whose first pivot is zero (row swap), a singular system, a `3 × 3` inverse -/
+example :
+    gjStep 2 3 ([[0, 1, 2], [1, 1, 3]] : Mat ℚ) 0 = some [[1, 1, 3], [0, 1, 2]] ∧
+    solveVec ([[0, 1], [1, 1]] : Mat ℚ) [2, 3] 2 = some [1, 2] ∧
+    solveVec ([[1, 2], [2, 4]] : Mat ℚ) [1, 1] 2 = none ∧
+    inverse ([[0, 0, 2], [0, 1, 0], [4, 0, 0]] : Mat ℚ) 3
+      = some [[0, 0, 1 / 4], [0, 1, 0], [1 / 2, 0, 0]] := by
+  decide +kernel
+
+/-- hypotheses of `lsFit_normalEq` / `arcovar_normalEq` / `modcovar_normalEq` over `ℚ` (order 2, the
+elimination runs two steps); the singular case of `covar_succeeds_iff` (constant record, order 2) -/
+example :
+    arcovar ([1, 2, 3, 5, 4, -1] : List ℚ) 2 = some ([-583 / 257, 511 / 257], 1756 / 257) ∧
+    modcovar ([1, 2, 3, 5, 4, -1] : List ℚ) 2 = some ([-100 / 83, 52 / 83], 1550 / 83) ∧
+    arcovar ([1, 1, 1, 1, 1] : List ℚ) 2 = none := by
+  decide +kernel
+
+/-- hypothesis of `arcovar_least_squares` / `modcovar_least_squares` /
+`arcovarMarple_least_squares` over `ℝ`: the model returns a value on `x = [1,2,3,5]`, `p = 1` -/
+example : arcovar ([1, 2, 3, 5] : List ℝ) 1 = some ([-23/14], 3/14) ∧
+    modcovar ([1, 2, 3, 5] : List ℝ) 1 = some ([-23/26], 147/13) := by
+  constructor
+  · simp [arcovar, lsFit, lstsq, solveVec, solveMat, gjStep, conjT, matMul, matVec, corrmtx,
+      mentryM, vec, nth, sumR, isZero, List.range_succ, Finset.sum_range_succ]
+    norm_num
+  · simp [modcovar, lsFit, lstsq, solveVec, solveMat, gjStep, conjT, matMul, matVec, corrmtx,
+      mentryM, vec, nth, sumR, isZero, List.range_succ, Finset.sum_range_succ]
+    norm_num
+
+end SolverExamples
 
 end SpecVerif.C14
